@@ -76,18 +76,45 @@ example : Installed exMaps 1023 exKp exTries ∧ (∀ w, exMaps.domainWord exPkt
 
 /-- **After any history of reloads.** One `buildRoutingKernspace` (LPM slots at the ring offsets
 `(start + i) % 1024`, rewritten rules, active length) on top of ARBITRARY previous map contents
-`m0`, followed by arbitrary updates of the domain map, leaves the kernel deciding like userspace:
-stale rules beyond the active length and stale LPM slots are never consulted. -/
-theorem routeK_after_any_reload_history (m0 : KMaps) (dom : List (Nat × List Nat)) (start : Nat)
+`m0`, followed by `InheritLpmIndices` for an ARBITRARY set `old` of superseded slots (deleted unless
+the new generation reuses them — overlapping generations included) and by arbitrary updates of the
+domain map, leaves the kernel deciding like userspace: stale rules beyond the active length and
+stale LPM slots are never consulted, and no slot of the live generation is deleted. -/
+theorem routeK_after_any_reload_history (m0 : KMaps) (old : List Nat) (dom : List (Nat × List Nat)) (start : Nat)
     (kp : List KEntry) (tries : List (List Prefix)) (pk : PktK) (ubm : List Nat)
     (rulesFit : kp.length ≤ MaxMatchSetLen) (triesFit : tries.length ≤ MaxMatchSetLen)
     (triesWF : ∀ t ∈ tries, ∀ p ∈ t, p.WF) (pktOK : PktOK pk)
-    (domain : ∀ w, ({ installGen .little start kp tries m0 with domain := dom } : KMaps).domainWord pk.daddr w = ubm.getD w 0)
+    (domain : ∀ w, ({ inheritSlots (installGen .little start kp tries m0) old (genSlots start tries.length)
+        with domain := dom } : KMaps).domainWord pk.daddr w = ubm.getD w 0)
     (entriesOK : ∀ k ∈ kp, EntryOK tries.length k) :
-    routeK .little { installGen .little start kp tries m0 with domain := dom } pk =
-      expectedK pk (matchU kp tries ubm pk) :=
-  routeK_main _ pk start kp tries ubm ((installGen_installed start kp tries m0 rulesFit triesFit).with_domain dom)
+    routeK .little { inheritSlots (installGen .little start kp tries m0) old (genSlots start tries.length)
+        with domain := dom } pk = expectedK pk (matchU kp tries ubm pk) :=
+  routeK_main _ pk start kp tries ubm
+    ((inherit_installed _ start kp tries old (installGen_installed start kp tries m0 rulesFit triesFit)).with_domain dom)
     triesWF pktOK domain entriesOK
+
+/-- `InheritLpmIndices` keeps the live generation installed (the reused-slot skip at work). -/
+theorem inherit_keeps_generation_installed (m : KMaps) (start : Nat) (kp : List KEntry) (tries : List (List Prefix))
+    (old : List Nat) (h : Installed m start kp tries) :
+    Installed (inheritSlots m old (genSlots start tries.length)) start kp tries :=
+  inherit_installed m start kp tries old h
+
+/-- … and the skip is needed: deleting a slot the live generation uses (what `InheritLpmIndices`
+would do without the `reused` test when two generations overlap, cf. `ring_overlap_when_too_many`)
+turns every packet that reaches the rule into `-EPERM` while userspace still decides `block`. -/
+theorem deleting_a_live_slot_breaks_routing :
+    routeK .little ((installGen .little 5 [⟨.ipSet 0, false, 1, false, 0⟩, ⟨.fallback, false, 0, false, 0⟩]
+        [[⟨true, mapped4 0x0a000000, 8⟩]] KMaps.empty).delSlots [ringSlot 5 0])
+      ⟨1, 1, List.replicate 16 0, 0, 0, 40000, 443, mapped4 1, mapped4 0x0a010203, 0⟩ = -EPERM ∧
+    matchU [⟨.ipSet 0, false, 1, false, 0⟩, ⟨.fallback, false, 0, false, 0⟩] [[⟨true, mapped4 0x0a000000, 8⟩]] []
+      ⟨1, 1, List.replicate 16 0, 0, 0, 40000, 443, mapped4 1, mapped4 0x0a010203, 0⟩ = some ⟨1, 0, false⟩ := by decide
+
+/-- The driver's executable check on the maps dumped from the real kernel after a real reload
+implies the theorems' hypothesis `Installed` (LPM slots compared up to trie-node identity). -/
+theorem installed_check_sound (m : KMaps) (start : Nat) (kp : List KEntry) (tries : List (List Prefix))
+    (h : installedB m start kp tries = true) : Installed m start kp tries := installedB_sound m start kp tries h
+
+example : installedB exMaps 1023 exKp exTries = true := by decide
 
 example : exKp.length ≤ MaxMatchSetLen ∧ exTries.length ≤ MaxMatchSetLen := by decide
 
@@ -139,7 +166,7 @@ theorem userspace_typed_eq_C01_matchM (es : List (Entry MCond Out)) (p : Pkt) (w
 /-- **Chain.** For every rule list as written, the kernel program run over the installed byte images
 returns the packed decision of the first matching rule (C01's specification), DNS-adjusted. -/
 theorem kernel_eq_first_match_spec (rules : List SRule) (fb : Out) (p : Pkt) (wan : Bool) (ubm : List Nat)
-    (m0 : KMaps) (dom : List (Nat × List Nat)) (start : Nat)
+    (m0 : KMaps) (old : List Nat) (dom : List (Nat × List Nat)) (start : Nat)
     (hp : p.WF) (hr : ∀ r ∈ rules, r.WF)
     (outboundsOK : ∀ e ∈ compileProgram rules fb, OutOK e)
     (domainPositions : DomOK ubm p 0 (compileProgram rules fb))
@@ -147,14 +174,16 @@ theorem kernel_eq_first_match_spec (rules : List SRule) (fb : Out) (p : Pkt) (wa
     (triesFit : (assignFrom 0 (compileProgram rules fb)).2.length ≤ MaxMatchSetLen)
     (triesWF : ∀ t ∈ (assignFrom 0 (compileProgram rules fb)).2, ∀ q ∈ t, q.WF)
     (pktOK : PktOK (toK p wan))
-    (domain : ∀ w, ({ installGen .little start (assignFrom 0 (compileProgram rules fb)).1
-        (assignFrom 0 (compileProgram rules fb)).2 m0 with domain := dom } : KMaps).domainWord (toK p wan).daddr w = ubm.getD w 0)
+    (domain : ∀ w, ({ inheritSlots (installGen .little start (assignFrom 0 (compileProgram rules fb)).1
+        (assignFrom 0 (compileProgram rules fb)).2 m0) old (genSlots start (assignFrom 0 (compileProgram rules fb)).2.length)
+        with domain := dom } : KMaps).domainWord (toK p wan).daddr w = ubm.getD w 0)
     (entriesOK : ∀ k ∈ (assignFrom 0 (compileProgram rules fb)).1,
         EntryOK (assignFrom 0 (compileProgram rules fb)).2.length k) :
-    routeK .little { installGen .little start (assignFrom 0 (compileProgram rules fb)).1
-        (assignFrom 0 (compileProgram rules fb)).2 m0 with domain := dom } (toK p wan) =
+    routeK .little { inheritSlots (installGen .little start (assignFrom 0 (compileProgram rules fb)).1
+        (assignFrom 0 (compileProgram rules fb)).2 m0) old (genSlots start (assignFrom 0 (compileProgram rules fb)).2.length)
+        with domain := dom } (toK p wan) =
       expectedK (toK p wan) (some (firstMatchS p rules fb false)) := by
-  rw [routeK_after_any_reload_history m0 dom start _ _ (toK p wan) ubm rulesFit triesFit triesWF pktOK domain entriesOK,
+  rw [routeK_after_any_reload_history m0 old dom start _ _ (toK p wan) ubm rulesFit triesFit triesWF pktOK domain entriesOK,
     userspace_typed_eq_C01_matchM _ p wan ubm outboundsOK domainPositions,
     C01.Props.match_is_first_match rules fb p hp hr]
 
